@@ -38,6 +38,24 @@ def gen_cases(ctx, n_trees, maxdepth):
                     cases.append((envp, e))
                 except Exception:
                     pass
+    # COINCIDENCES: two different functions of the same variables (same variable storage in the implementation) whose
+    # VALUES are bit-for-bit equal at the evaluation point while their derivatives differ — x*x and 3x at 3, x+x and x*x
+    # at 2, x^2 y and x y^2 at x = y, e^x - 1 and x at 0 … — under every binary operator, both ways round
+    xx, x3, xpx = ("mul", x, x), ("mulf", x, 3.0), ("add", x, x)
+    xy = ("mul", x, y)
+    fam = [([("x", 3.0)], xx, x3), ([("x", 2.0)], xpx, xx), ([("x", 2.0)], ("pow", x, 2.0), ("mulf", x, 2.0)),
+           ([("x", 1.0)], x, xx), ([("x", 1.0)], ("pow", x, 3.0), ("fdiv", 1.0, x)),
+           ([("x", 2.0), ("y", 2.0)], ("mul", xy, x), ("mul", xy, y)), ([("x", 1.5), ("y", 1.5)], ("add", xy, x), ("add", xy, y)),
+           ([("x", 2.0), ("y", 2.0)], x, y), ([("x", 0.5), ("y", 0.5), ("z", 0.5)], ("mul", ("add", xy, z), x), ("mul", ("add", xy, z), z)),
+           ([("x", 4.0), ("y", 0.25)], ("mul", xy, x), ("div", ("mul", xy, xy), y))]
+    for envc, a, b in fam:
+        for t in ("add", "sub", "mul", "div"):
+            for e in ((t, a, b), (t, b, a)):
+                try:
+                    dg.eval_py(e, dict(envc))
+                    cases.append((envc, e))
+                except Exception:
+                    pass
     # extreme magnitudes: tiny / huge / exactly-zero operands for every operator variant
     ext = dg.extreme_cases(order=(2 if OPCODE == 2 else 1))
     if ctx.tier != "thorough":
